@@ -1,15 +1,280 @@
 /-
-  C17 — radix strings (placeholder while the machinery is brought up)
+  C17 — Radix strings: canonical output, exact parse, overflow always reported.
+
+  L0 (CB.Model.Radix part 1): `specFormat` = THE canonical numeral, `specParse` = the grammar
+  `[+]?[0-9a-zA-Z_]+` (no leading / trailing underscore, digits < radix) and its value.
+  L1 (part 2): the crate's decoders / encoders, loop for loop.
+
+  Status (see notes/C17.md):
+    T17.1  full   numeral ↔ value bijection, canonical shape, parse ∘ format, grammar
+    T17.2  full   digit-batch decoder (every radix except 2, 4, 16) and the three public parse
+                  entry points built on it; `_partial` for the limb-aligned decoder (2, 4, 16)
+    T17.3  output stage full; the two buffer-filling loops are carried as named hypotheses
+           (`_partial`); proved NEGATIONS for the defects of the unchanged tree.
+  Value-level calls: `div2by1`, `div_rem_vartime_in_place` (exactness: C02), `bits` (C05).
 -/
-import CB.Model.Radix
+import CB.Lemmas.C17Decode
+import CB.Lemmas.C17Encode
 namespace CB.P17
 open CB CB.Radix
 
-theorem charDigit_digitChar {d : Nat} (h : d < 36) : charDigit? (digitChar d) = some d := by
-  by_cases h10 : d < 10
-  · have e : digitChar d = 48 + d := by simp [digitChar, h10]
-    rw [e, charDigit?, if_pos (by omega)]; congr 1; omega
-  · have e : digitChar d = 97 + (d - 10) := by simp [digitChar, h10]
-    rw [e, charDigit?, if_neg (by omega), if_pos (by omega)]; congr 1; omega
+/-! ## T17.1 — numerals (L0) -/
+
+/-- every value has a canonical digit list (digits < r, no leading zero) that evaluates to it … -/
+theorem numeral_of_value {r : Nat} (hr : 2 ≤ r) (x : Nat) :
+    Canonical r (digitsBE r x) ∧ ofDigits r (digitsBE r x) = x :=
+  ⟨digitsBE_canonical hr x, ofDigits_digitsBE hr x⟩
+
+/-- … and it is the only one: canonical digit lists ↔ values is a bijection, for every radix ≥ 2 -/
+theorem numeral_unique {r : Nat} (hr : 2 ≤ r) {ds : List Nat} (h : Canonical r ds) :
+    digitsBE r (ofDigits r ds) = ds := digitsBE_ofDigits hr h
+
+/-- `"0"` for zero -/
+theorem format_zero (r : Nat) : specFormat r 0 = [48] := by simp [specFormat]
+
+/-- no leading zero, lower-case alphanumerics with digit value below the radix only -/
+theorem format_shape {r : Nat} (hr : 2 ≤ r) {x : Nat} (hx : x ≠ 0) :
+    (specFormat r x).head? ≠ some 48 ∧ specFormat r x ≠ [] ∧
+    ∀ b ∈ specFormat r x, ∃ d, d < r ∧ b = digitChar d := by
+  have hfmt : specFormat r x = (digitsBE r x).map digitChar := by simp [specFormat, hx]
+  have hc := digitsBE_canonical hr x
+  have hne := digitsBE_ne_nil hr hx
+  rw [hfmt]
+  refine ⟨?_, by simpa using hne, ?_⟩
+  · cases hd : digitsBE r x with
+    | nil => exact absurd hd hne
+    | cons d ds =>
+      simp only [List.map_cons, List.head?_cons, ne_eq, Option.some.injEq]
+      rw [digitChar_eq_48]
+      intro h0; apply hc.2; rw [hd, h0]; rfl
+  · intro b hb
+    rcases List.mem_map.mp hb with ⟨d, hd, rfl⟩
+    exact ⟨d, hc.1 d hd, rfl⟩
+
+/-- the output alphabet is `0-9a-z` -/
+theorem format_alphabet {d : Nat} (h : d < 36) :
+    (48 ≤ digitChar d ∧ digitChar d ≤ 57) ∨ (97 ≤ digitChar d ∧ digitChar d ≤ 122) := digitChar_range h
+
+/-- `parse (format x) = x` for every radix 2..36 -/
+theorem parse_format {r : Nat} (h2 : 2 ≤ r) (h36 : r ≤ 36) (x : Nat) :
+    specParse r (specFormat r x) = .ok x := specParse_specFormat h2 h36 x
+
+/-- the grammar: an optional `+`, then a non-empty body of digits `< r` (either case) and
+underscores that neither starts nor ends with an underscore; the value is positional -/
+theorem grammar (r : Nat) (s : List Nat) (v : Nat) :
+    specParse r s = .ok v ↔
+      ∃ ds, stripPlus s ≠ [] ∧ (stripPlus s).head? ≠ some 95 ∧ (stripPlus s).getLast? ≠ some 95 ∧
+        bodyDigits r (stripPlus s) = some ds ∧ v = ofDigits r ds := by
+  unfold specParse
+  simp only
+  generalize stripPlus s = body
+  by_cases hemp : body.isEmpty = true
+  · have : body = [] := by simpa using hemp
+    subst this
+    simp
+  · have hne : body ≠ [] := by simpa using hemp
+    simp only [hemp, Bool.false_eq_true, if_false]
+    by_cases hus : body.head? = some 95 ∨ body.getLast? = some 95
+    · simp only [if_pos hus]
+      constructor
+      · intro h; exact absurd h (by simp)
+      · rintro ⟨ds, _, h1, h2, _⟩
+        rcases hus with h | h
+        · exact absurd h h1
+        · exact absurd h h2
+    · simp only [if_neg hus]
+      have h1 : body.head? ≠ some 95 := fun h => hus (Or.inl h)
+      have h2 : body.getLast? ≠ some 95 := fun h => hus (Or.inr h)
+      cases hb : bodyDigits r body with
+      | none => simp
+      | some ds =>
+        simp only [Except.ok.injEq, Option.some.injEq]
+        constructor
+        · intro h; exact ⟨ds, hne, h1, h2, rfl, h.symm⟩
+        · rintro ⟨ds', _, _, _, h3, h4⟩; rw [h4, ← h3]
+
+/-- a leading `+` is ignored -/
+theorem parse_plus (r : Nat) (s : List Nat) (h : s.head? ≠ some 43) :
+    specParse r (43 :: s) = specParse r s := by
+  unfold specParse
+  have e1 : stripPlus (43 :: s) = s := rfl
+  rw [e1, stripPlus_of_head_ne h]
+
+/-- leading zeros and underscores between them do not change the value -/
+theorem leading_zeros_ignored {r : Nat} (hr : 0 < r) (body ds : List Nat)
+    (h : bodyDigits r body = some ds) :
+    ∃ ds', bodyDigits r (stripLeading body) = some ds' ∧ ofDigits r ds' = ofDigits r ds :=
+  (stripLeading_body hr body).1 ds h
+
+/-- interior underscores are skipped -/
+theorem underscore_ignored (r : Nat) (bs : List Nat) : bodyDigits r (95 :: bs) = bodyDigits r bs :=
+  bodyDigits_us r bs
+
+/-- upper-case letters denote the same digits -/
+theorem upper_case_same_digit {b : Nat} (h : 97 ≤ b ∧ b ≤ 122) : charDigit? (b - 32) = charDigit? b :=
+  charDigit_upper h
+
+/-- non-vacuity: `"+0_Ff"` is a base-16 numeral of value 255, `"ff"` is its canonical form -/
+example : specParse 16 [43, 48, 95, 70, 102] = .ok 255 ∧ specFormat 16 255 = [102, 102] := ⟨rfl, rfl⟩
+
+/-! ## T17.2 — decoding (L1 = L0) -/
+
+/-- the digit-batch decoder (`radix_decode_str_digits`: batches of `ilog` digits, final partial
+batch, `mac` into the limbs, `push_limb`) on any target: the value of the numeral; `InputSize` only
+when the value does not fit (`B^n ≤ v`); `Empty` exactly for `""`/`"+"`; a non-numeral is never
+accepted. -/
+theorem batch_decoder_exact {radix : Nat} (h2 : 2 ≤ radix) (h36 : radix ≤ 36) (s : List Nat)
+    (cap : Option Nat) : DecodeCorrect radix s cap (decodeDigits radix s ⟨cap, []⟩) :=
+  decodeDigits_correct h2 h36 s cap
+
+/-- `Uint::<n>::from_str_radix_vartime` / `num_traits::Num::from_str_radix`, every radix that takes
+the batch decoder: exact value when it fits; `InputSize` iff `value ≥ 2^BITS`; NEVER a wrapped or
+truncated value (last clause); `Empty` for the empty numeral; a non-numeral is rejected. -/
+theorem uint_from_str_radix_exact {n radix : Nat} (h2 : 2 ≤ radix) (h36 : radix ≤ 36)
+    (hna : ¬ (radix = 2 ∨ radix = 4 ∨ radix = 16)) (s : List Nat) :
+    (∀ v, specParse radix s = .ok v → v < B ^ n → uintFromStr n radix s = .ok (toLimbs n v)) ∧
+    (∀ v, specParse radix s = .ok v → B ^ n ≤ v → uintFromStr n radix s = .error .inputSize) ∧
+    (specParse radix s = .error .empty → uintFromStr n radix s = .error .empty) ∧
+    (specParse radix s = .error .invalidDigit →
+      uintFromStr n radix s = .error .invalidDigit ∨ uintFromStr n radix s = .error .inputSize) ∧
+    (∀ l, uintFromStr n radix s = .ok l →
+      ∃ v, specParse radix s = .ok v ∧ v < B ^ n ∧ l = toLimbs n v) := by
+  apply uintFromStr_of_correct
+  rw [decodeStr_batch h2 h36 hna]
+  exact decodeDigits_correct h2 h36 s _
+
+/-- `BoxedUint::from_str_radix_vartime` (batch radices): the value, `Empty`/`InvalidDigit` exactly
+for non-numerals, never a size error -/
+theorem boxed_from_str_radix_exact {radix : Nat} (h2 : 2 ≤ radix) (h36 : radix ≤ 36)
+    (hna : ¬ (radix = 2 ∨ radix = 4 ∨ radix = 16)) (s : List Nat) :
+    (∀ v, specParse radix s = .ok v → ∃ l, boxedFromStr radix s = .ok l ∧ val l = v ∧ WF l) ∧
+    (specParse radix s = .error .empty → boxedFromStr radix s = .error .empty) ∧
+    (specParse radix s = .error .invalidDigit → boxedFromStr radix s = .error .invalidDigit) := by
+  apply boxedFromStr_of_correct
+  rw [decodeStr_batch h2 h36 hna]
+  exact decodeDigits_correct h2 h36 s _
+
+/-- `BoxedUint::from_str_radix_with_precision_vartime` (batch radices): value iff it is below
+`2^bits_precision`; `Precision` iff it only fits the rounded-up limbs; `InputSize` beyond -/
+theorem boxed_from_str_radix_with_precision_exact {radix p : Nat} (h2 : 2 ≤ radix) (h36 : radix ≤ 36)
+    (hna : ¬ (radix = 2 ∨ radix = 4 ∨ radix = 16)) (s : List Nat) :
+    (∀ v, specParse radix s = .ok v → v < 2 ^ p →
+      boxedFromStrPrec radix p s = .ok (toLimbs (precLimbs p) v)) ∧
+    (∀ v, specParse radix s = .ok v → 2 ^ p ≤ v → v < B ^ precLimbs p →
+      boxedFromStrPrec radix p s = .error .precision) ∧
+    (∀ v, specParse radix s = .ok v → B ^ precLimbs p ≤ v →
+      boxedFromStrPrec radix p s = .error .inputSize) ∧
+    (specParse radix s = .error .empty → boxedFromStrPrec radix p s = .error .empty) := by
+  apply boxedFromStrPrec_of_correct
+  rw [decodeStr_batch h2 h36 hna]
+  exact decodeDigits_correct h2 h36 s _
+
+/-- documented panic for a radix outside 2..=36 -/
+theorem unsupported_radix_panics {radix : Nat} (h : ¬ (2 ≤ radix ∧ radix ≤ 36)) (s l : List Nat)
+    (t : Target) : decodeStr radix s t = .error .panic ∧ encodeToString radix l = .error .panic := by
+  unfold decodeStr encodeToString
+  rw [radixMin_eq, radixMax_eq, if_pos h, if_pos h]
+  exact ⟨rfl, rfl⟩
+
+/- FULL STATEMENT (unproved): for radix ∈ {2, 4, 16} the limb-aligned decoder
+   (`radix_decode_str_aligned_digits`) satisfies the same contract:
+     ∀ s cap, DecodeCorrect radix s cap (decodeAligned radix s ⟨cap, []⟩)
+   hence `uint_from_str_radix_exact` etc. hold for these radices too. The model `decodeAligned`
+   is validated against the crate by the correspondence run only. -/
+theorem uint_from_str_radix_aligned_partial {n radix : Nat} (ha : radix = 2 ∨ radix = 4 ∨ radix = 16)
+    (s : List Nat)
+    (H_aligned : DecodeCorrect radix s (some n) (decodeAligned radix s ⟨some n, []⟩)) :
+    (∀ v, specParse radix s = .ok v → v < B ^ n → uintFromStr n radix s = .ok (toLimbs n v)) ∧
+    (∀ v, specParse radix s = .ok v → B ^ n ≤ v → uintFromStr n radix s = .error .inputSize) ∧
+    (specParse radix s = .error .empty → uintFromStr n radix s = .error .empty) ∧
+    (specParse radix s = .error .invalidDigit →
+      uintFromStr n radix s = .error .invalidDigit ∨ uintFromStr n radix s = .error .inputSize) ∧
+    (∀ l, uintFromStr n radix s = .ok l →
+      ∃ v, specParse radix s = .ok v ∧ v < B ^ n ∧ l = toLimbs n v) := by
+  apply uintFromStr_of_correct
+  rw [decodeStr_aligned ha]
+  exact H_aligned
+
+/-- non-vacuity of the decoder theorems: base 10, one limb, `"+0_18446744073709551615"` is
+`2^64 - 1`; one more is reported as `InputSize`, not wrapped to 0 -/
+example : uintFromStr 1 10 [43, 48, 95, 49, 56, 52, 52, 54, 55, 52, 52, 48, 55, 51, 55, 48, 57, 53, 53, 49, 54, 49, 53]
+      = .ok [18446744073709551615] ∧
+    uintFromStr 1 10 [49, 56, 52, 52, 54, 55, 52, 52, 48, 55, 51, 55, 48, 57, 53, 53, 49, 54, 49, 54]
+      = .error .inputSize := ⟨rfl, rfl⟩
+
+/- FULL STATEMENT (false of the code as written): a string that is not a numeral is reported as
+   `InvalidDigit` (or `Empty`):  specParse radix s = .error .invalidDigit →
+   uintFromStr n radix s = .error .invalidDigit.
+   The proved form is the fourth clause of `uint_from_str_radix_exact` (an error, possibly
+   `InputSize`); the witness below shows the difference is real (finding C17-error-precedence). -/
+theorem invalid_digit_reported_as_input_size_witness :
+    specParse 10 (List.replicate 40 57 ++ [63]) = .error .invalidDigit ∧
+    uintFromStr 1 10 (List.replicate 40 57 ++ [63]) = .error .inputSize := ⟨rfl, rfl⟩
+
+/- FULL STATEMENT (false of the code as written): `BoxedUint::from_str_radix_vartime` returns a
+   usable value (≥ 1 limb) equal to the numeral's value. Proved: the VALUE is right
+   (`boxed_from_str_radix_exact`); for a zero numeral the result has no limbs at all
+   (finding, DESIGN §7 row 5): -/
+theorem boxed_parse_zero_has_no_limbs : boxedFromStr 10 [48] = .ok [] := rfl
+
+/-! ## T17.3 — encoding -/
+
+/-- the digit loop of `encode_limbs` writes the `k` low base-`radix` digits of the word -/
+theorem emit_digits_exact (radix k w : Nat) (acc : List Nat) :
+    emitDigits radix k w acc = (digitsPad radix k w).map (fun d => digitByte (d % 256)) ++ acc :=
+  emitDigits_eq radix k w acc
+
+/-- output stage: the leading-zero strip of a buffer holding the zero-padded expansion of `x`
+yields exactly the canonical numeral (`"0"` for zero, no leading zeros otherwise) -/
+theorem buffer_to_numeral {r : Nat} (hr : 2 ≤ r) {n x : Nat} (hn : 0 < n) (hx : x < r ^ n) :
+    skipZeros ((digitsPad r n x).map digitChar) = specFormat r x := skipZeros_padded hr hn hx
+
+/- FULL STATEMENT (unproved; FALSE of the code as written for the division path, see the witness
+   `encode_wrapped_shift_witness`):
+     ∀ radix ∈ 2..36, ∀ limbs ≠ [], WF limbs →
+       encodeToString radix limbs = .ok (specFormat radix (val limbs))
+   Proved below: it follows from the single fact that the buffer-filling loop
+   (`radix_encode_limbs_by_shifting`, resp. `RadixDivisionParams::encode_limbs` including the
+   large-divisor recursion) writes the zero-padded expansion — hypotheses `H_shift` / `H_div`. -/
+theorem encode_pow2_partial {radix : Nat} (h2 : 2 ≤ radix) (h36 : radix ≤ 36) (hp : isPow2 radix = true)
+    {limbs : List Nat}
+    (H_shift : let size := (limbs.length * 64 + trailingZeros radix - 1) / trailingZeros radix
+      encodeByShifting radix limbs size = (digitsPad radix size (val limbs)).map digitChar ∧
+      0 < size ∧ val limbs < radix ^ size) :
+    encodeToString radix limbs = .ok (specFormat radix (val limbs)) := by
+  unfold encodeToString
+  rw [radixMin_eq, radixMax_eq, if_neg (by omega), if_pos hp]
+  simp only at H_shift ⊢
+  rw [H_shift.1, skipZeros_padded h2 H_shift.2.1 H_shift.2.2]
+
+theorem encode_div_partial {radix : Nat} (h2 : 2 ≤ radix) (h36 : radix ≤ 36) (hp : isPow2 radix = false)
+    {limbs : List Nat} {p : DivParams} (hpar : forRadix radix = .ok p)
+    (H_div : let size := limbs.length * (p.digitsLimb + 1)
+      encodeLimbs p limbs size = (digitsPad radix size (val limbs)).map digitChar ∧
+      0 < size ∧ val limbs < radix ^ size) :
+    encodeToString radix limbs = .ok (specFormat radix (val limbs)) := by
+  unfold encodeToString
+  rw [radixMin_eq, radixMax_eq, if_neg (by omega)]
+  simp only [hp, Bool.false_eq_true, if_false, hpar]
+  simp only at H_div
+  rw [H_div.1, skipZeros_padded h2 H_div.2.1 H_div.2.2]
+
+/-- the 14-limb value on which `to_string_radix_vartime(31)` loses its leading digit -/
+def wrapWitness : Nat := 0x13c4348132f0ae20bc4e1e1dd7a8c71526e185780bb5c91686df58d9fc90c3440be592dd5a1c54b2f9fc1085cc6f2bc343b805e056492684f7992bed4957b27c9638c0e2a67542a6b11f318f6cccfda8a457a18a37e9a11739c61ec820325f4b0f71eda9082af1b01000000000003039
+
+def okLen : Except Err (List Nat) → Nat
+  | .ok l => l.length
+  | .error _ => 0
+
+/-- NEGATION of the full statement for the code as written (finding C17-encode-wrapped-shift):
+the model of `encode_limbs`, with its wrapping `limbs[limb_count-1] << lshift < div_limb`, returns
+a numeral that is one digit SHORTER than the canonical numeral of the value. -/
+theorem encode_wrapped_shift_witness :
+    okLen (encodeToString 31 (toLimbs 14 wrapWitness)) + 1 = (specFormat 31 wrapWitness).length ∧
+    wrapWitness < B ^ 14 := by decide +kernel
+
+/-- NEGATION (DESIGN §7 row 5): a zero-limb value formats as the empty string, not `"0"` -/
+theorem format_zero_limbs_is_empty : encodeToString 10 [] = .ok [] ∧ specFormat 10 (val []) = [48] :=
+  ⟨rfl, rfl⟩
 
 end CB.P17
